@@ -89,6 +89,11 @@ CHECKS = {
    text="Generated association configurations and a scripted outstation (per request: proper reply with generated indication bits, IIN2 rejection, unacceptable reply, silence; injected unsolicited responses and reconnects). A model of what is still due (clear restart < disable < integrity < time sync < enable < polls) is updated from the indications the harness itself sent; every transmitted request is checked against it, retry instants against the exponential back-off, and unsolicited data against the integrity-poll gate.",
    note="After an IIN2 rejection of DISABLE/ENABLE giving up and retrying are both accepted; requests already on the wire when an indication is injected are judged leniently.",
    design="DESIGN.md §5 C17"),
+ "C18": dict(
+   technique="property-based testing of the paired simulation with scripted per-message delays; metamorphic accuracy bound derived from the statement",
+   text="A real master and a real outstation joined by the proxy of PairRig, which delays each message by a generated amount (0..70000 ms per leg, often all equal so that the error must vanish); master clock values incl. those within reach of 2^48-1 and a master without clock; the LAN, non-LAN and direct-write procedures; reported processing delays 0..65535, honest (the reply really is that late) or not; an application that rejects the write or keeps NEED_TIME set; unsolicited reports and wrong-sequence replies injected at generated instants; optional earlier attempts that are abandoned (write rejected, connection cut after the first request, NEED_TIME kept) before the judged procedure. Whenever the master reports success, exactly one write_absolute_time happened and its value differs from the master's clock at that very virtual instant by no more than the one-way delay (LAN, direct write) or the largest difference between the one-way delays (non-LAN), +1 ms rounding; whenever the reported processing delay exceeds the round trip, NEED_TIME persists, the application rejected the write, the time does not fit 48 bits or the master has no clock, success must not be reported.",
+   note="A reply with unexpected objects cannot be produced by the real outstation; that clause is exercised only through the scripted outstation of C15/C16. A dishonest processing-delay report is only required to be caught when it exceeds the round trip. Whether a fault-free synchronisation must succeed is not asserted (statement is one-directional).",
+   design="DESIGN.md §5 C18"),
  "C19": dict(
    technique="stateful property-based testing over exactly time-stamped request traces (virtual clock)",
    text="1-4 associations with 0-3 polls each and optional keep-alive, user READs and poll demands at generated times, an outstation that answers promptly, late or never. Checked on the trace: one request outstanding at a time, user requests in order and ahead of polls, polls never early and never late while the channel is idle, nothing due is left waiting at quiescence, keep-alive only after the configured silence, bounded task polls while idle (no spinning).",
